@@ -1,6 +1,363 @@
-import Asts.Spec.Sync
+import Asts.Proofs.SY_b_C08Monitor
 
-/-! # C08 — property theorems (under construction) -/
+/-! # C08 (store half) — the update revision mirrors the template; scaling edits never cause a restart
+
+Property theorems only; lemmas are in `Asts/Proofs/SY_b_Revs.lean`, `SY_b_GetRevs.lean`, `SY_b_Log.lean`, `SY_b_Sync.lean`,
+`SY_b_SyncThms.lean`, `SY_b_Scaling.lean`, `SY_b_Strings.lean` (sya-prover's `parseEntry` bridge), `SY_b_C08Monitor.lean`.
+
+`getRevisionsF h plan template statusCurrentRev cc0 revs s` is the model (`Model/Sync`) of `getStatefulSetRevisions`
+(stateful_set_control.go): `revs` is the sorted listing, `s` the API store + call log, `plan` the injected faults, `h` the
+hash function (a parameter: EVERY statement below holds for every `Hashing`, colliding ones included).
+`SYb.pickF` is `getRevisionsF` without the lookup of the current revision (`getRevisions_is_pick`), `SYb.freshOf` the revision
+built from the template (`newRevision`), `SYb.pickCalls` the structured twin of its call log (`RevCall.create/update/get`),
+`SYb.candidate h fresh cc` the revision `createControllerRevision` tries to create at collision count `cc`.
+The API calls are logged as strings; `pick_log_is_rendering` says the string log is the rendering of the structured one,
+and the whole-sync statements about `create:rev:` entries use the character-level prefix test `SYb.pre`. -/
 namespace Asts.C08
+open Asts Asts.SYb
+
+/-- `getRevisionsF` is `pickF` followed by the lookup of `status.currentRevision` among the listed revisions -/
+theorem getRevisions_is_pick (h : Hashing) (plan : List Fault) (template cur : String) (cc0 : Int) (revs : List Rev) (s : RevSt) :
+    getRevisionsF h plan template cur cc0 revs s =
+      ((pickF h plan template cc0 revs s).1,
+       (pickF h plan template cc0 revs s).2.map (fun p => ((revs.find? (·.name == cur)).getD p.1, p.1, p.2))) :=
+  getRevisionsF_eq h plan template cur cc0 revs s
+
+/-- the string log of the resolution is the old log followed by the rendering of the structured calls -/
+theorem pick_log_is_rendering (h : Hashing) (plan : List Fault) (template cur : String) (cc0 : Int) (revs : List Rev) (s : RevSt) :
+    (getRevisionsF h plan template cur cc0 revs s).1.tr.log =
+      s.tr.log ++ (pickCalls h plan template cc0 revs s).map RevCall.key := by
+  rw [getRevisionsF_eq]; exact pickF_log h plan template cc0 revs s
+
+/-! ## (1) the update revision mirrors the template -/
+
+/-- **(1)** if `getRevisionsF` returns `(cur, upd, cc)` then `upd` records the template and `upd` itself is in the
+    resulting store (so a revision named `upd.name` with `data = template` is stored); the collision count never
+    decreases. Hypothesis: the listing is the listing of the store (`revs = sortRevs (listRevisions s.store)`). -/
+theorem update_revision_mirrors_template (h : Hashing) (plan : List Fault) (template stCur : String) (cc0 : Int) (s : RevSt)
+    (cur upd : Rev) (cc : Int)
+    (hres : (getRevisionsF h plan template stCur cc0 (sortRevs (listRevisions s.store)) s).2 = some (cur, upd, cc)) :
+    upd.data = template ∧
+    upd ∈ (getRevisionsF h plan template stCur cc0 (sortRevs (listRevisions s.store)) s).1.store ∧ cc0 ≤ cc := by
+  rw [getRevisionsF_eq] at hres ⊢
+  simp only at hres ⊢
+  cases hp : (pickF h plan template cc0 (sortRevs (listRevisions s.store)) s).2 with
+  | none => rw [hp] at hres; simp at hres
+  | some p =>
+    obtain ⟨u, c⟩ := p
+    rw [hp] at hres
+    simp only [Option.map_some, Option.some.injEq, Prod.mk.injEq] at hres
+    obtain ⟨_, rfl, rfl⟩ := hres
+    exact pickF_sound h plan template cc0 _ s (fun r hr => (mem_listRevisions (mem_sortRevs.mp hr)).1) hp
+
+/-- the current revision is the listed revision named by `status.currentRevision`, else the update revision -/
+theorem current_revision (h : Hashing) (plan : List Fault) (template stCur : String) (cc0 : Int) (revs : List Rev) (s : RevSt)
+    (cur upd : Rev) (cc : Int) (hres : (getRevisionsF h plan template stCur cc0 revs s).2 = some (cur, upd, cc)) :
+    cur = (revs.find? (·.name == stCur)).getD upd := by
+  rw [getRevisionsF_eq] at hres
+  simp only at hres
+  cases hp : (pickF h plan template cc0 revs s).2 with
+  | none => rw [hp] at hres; simp at hres
+  | some p =>
+    rw [hp] at hres
+    simp only [Option.map_some, Option.some.injEq, Prod.mk.injEq] at hres
+    obtain ⟨h1, h2, _⟩ := hres
+    rw [← h1, ← h2]
+
+/-- **(1) for a whole sync**: after a successful reconcile, for every store, pods, fault plan and hashing, the update
+    revision the sync reports (in the status it wrote, else the cached status) is the one it resolved, and a revision
+    of that name recording exactly the current template is in the final store -/
+theorem sync_ok_update_revision_stored (h : Hashing) (i : SyncIn) (plan : List Fault)
+    (hrun : (i.paused || !i.selectorOk) = false) (hok : (syncF h i plan).outcome = .ok) :
+    ∃ u ∈ (syncF h i plan).store, u.name = (syncF h i plan).upd ∧ u.name = reportedUpd i (syncF h i plan) ∧
+      u.data = i.template :=
+  sync_ok_upd_stored h i plan hrun hok
+
+/-- … and with one object per name in the API it is what a lookup by that name finds -/
+theorem sync_ok_update_revision_found (h : Hashing) (i : SyncIn) (plan : List Fault)
+    (hrun : (i.paused || !i.selectorOk) = false) (hok : (syncF h i plan).outcome = .ok)
+    (hn : (i.store.map (·.name)).Nodup) :
+    ∃ u, (syncF h i plan).store.find? (·.name == reportedUpd i (syncF h i plan)) = some u ∧ u.data = i.template := by
+  obtain ⟨u, hu, _, h2, h3⟩ := sync_ok_upd_stored h i plan hrun hok
+  exact ⟨u, h2 ▸ find?_of_names_nodup (sync_names_nodup h i plan hn) hu, h3⟩
+
+/-! ## (2) scaling edits never change the update revision
+
+`getRevisionsF` has no access to the set at all: its arguments are the template, `status.currentRevision` (used only to
+look up the *current* revision), the collision count, the listing and the store + log. What an edit of replicas,
+delete-slots, pause or other metadata can change before it runs is the claim stage's part of the log (which pods are
+adopted / released), and that cannot matter because faults are addressed by call key. -/
+
+/-- the resolution of the update revision depends on the call log only through how often each ControllerRevision call
+    key occurred: with the same store and the same counts it returns the same revision, count and store -/
+theorem resolution_reads_only_revision_calls (h : Hashing) (plan : List Fault) (template : String) (cc0 : Int) (revs : List Rev)
+    (s s' : RevSt) (hst : s.store = s'.store) (ht : ∀ c : RevCall, cnt c.key s.tr.log = cnt c.key s'.tr.log) :
+    (pickF h plan template cc0 revs s).2 = (pickF h plan template cc0 revs s').2 ∧
+    (pickF h plan template cc0 revs s).1.store = (pickF h plan template cc0 revs s').1.store :=
+  pickF_congr h plan template cc0 revs s s' hst ht
+
+/-- **(2)** two sets with the same template, collision count, stored revisions, API identity and deletion state — and
+    arbitrary, different replicas, delete-slots, pods, cached status, history limit, name — that are both reconciled
+    successfully under the same fault plan report the same update revision: a scaling edit cannot trigger a rolling
+    restart. (Pause: a paused set is not reconciled at all, C11.) -/
+theorem scaling_edits_keep_update_revision (h : Hashing) (i i' : SyncIn) (plan : List Fault)
+    (hsame : SameRevisionInputs i i')
+    (hrun : (i.paused || !i.selectorOk) = false) (hrun' : (i'.paused || !i'.selectorOk) = false)
+    (hok : (syncF h i plan).outcome = .ok) (hok' : (syncF h i' plan).outcome = .ok) :
+    (syncF h i' plan).upd = (syncF h i plan).upd ∧
+    reportedUpd i' (syncF h i' plan) = reportedUpd i (syncF h i plan) :=
+  scaling_same_update_revision h i i' plan hsame hrun hrun' hok hok'
+
+/-! ## (3) an unchanged template adds no revision -/
+
+/-- **(3)** if the newest listed revision equals the fresh one (`EqualRevision`), it is the update revision, no call at all
+    is made — no Create, no Update — the store is untouched and the collision count is unchanged -/
+theorem unchanged_template_adds_nothing (h : Hashing) (plan : List Fault) (template : String) (cc0 : Int) (revs : List Rev)
+    (s : RevSt) (l : Rev) (hl : revs.getLast? = some l) (heq : equalRev l (freshOf h template cc0 revs) = true) :
+    pickF h plan template cc0 revs s = (s, some (l, cc0)) ∧ pickCalls h plan template cc0 revs s = [] :=
+  pickF_unchanged h plan template cc0 revs s hl heq
+
+/-- (3)/(4) for a whole sync: if some listed revision equals the fresh one — the newest (unchanged template) or an older
+    one (revert) — the whole sync logs no `create:rev:` entry, whatever else happens -/
+theorem sync_equal_revision_no_create (h : Hashing) (i : SyncIn) (plan : List Fault) (r : Rev) (hr : r ∈ syncListing plan i)
+    (heq : equalRev r (freshOf h i.template (i.collisionCount.getD 0) (syncListing plan i)) = true) :
+    (syncF h i plan).log.filter (pre "create:rev:") = [] :=
+  sync_no_create_of_equal h i plan hr heq
+
+/-- every `create:rev:` entry of a sync is a probe of the name derived from the current template at a collision count
+    not below the stored one -/
+theorem sync_creates_are_template_probes (h : Hashing) (i : SyncIn) (plan : List Fault) (e : String)
+    (he : e ∈ (syncF h i plan).log) (hp : pre "create:rev:" e = true) :
+    ∃ j, (i.collisionCount.getD 0) ≤ j ∧ e = s!"create:rev:{h.nameOf i.template j}" :=
+  sync_create_entries h i plan e he hp
+
+/-! ## (4) reverting re-uses the earlier revision, renumbered above all others -/
+
+/-- **(4)** if some listed revision equals the fresh one, nothing is created: every call is an Update or a Get of the last
+    equal revision `e`. With a sorted listing, a successful resolution keeps the collision count and either uses the
+    newest revision as it is (it records the same data as `e`; no call) or uses `e` renumbered to `nextRevision revs`,
+    which is greater than every listed number, and stores it so. -/
+theorem revert_reuses_and_renumbers (h : Hashing) (plan : List Fault) (template : String) (cc0 : Int) (revs : List Rev)
+    (s : RevSt) (hne : ∃ r ∈ revs, equalRev r (freshOf h template cc0 revs) = true) :
+    ∃ e l, (equalsOf h template cc0 revs).getLast? = some e ∧ revs.getLast? = some l ∧
+      (∀ c ∈ pickCalls h plan template cc0 revs s, c = .update e.name ∨ c = .get e.name) ∧
+      (revs.Pairwise (fun a b => revLt b a = false) → ∀ upd cc, (pickF h plan template cc0 revs s).2 = some (upd, cc) →
+        cc = cc0 ∧
+        ((upd = l ∧ equalRev l e = true ∧ (pickF h plan template cc0 revs s).1.store = s.store ∧
+            pickCalls h plan template cc0 revs s = []) ∨
+         (upd = { e with number := nextRevision revs } ∧ equalRev l e = false ∧
+            (pickF h plan template cc0 revs s).1.store = s.store.map (setNumber e.name (nextRevision revs)) ∧
+            ∀ r ∈ revs, r.number < upd.number))) := by
+  apply pickF_revert
+  obtain ⟨r, hr, heq⟩ := hne
+  intro hnil
+  have : r ∈ equalsOf h template cc0 revs := by unfold equalsOf; rw [List.mem_filter]; exact ⟨hr, heq⟩
+  rw [hnil] at this; simp at this
+
+/-- `nextRevision` of a sorted listing exceeds every listed number (`SortControllerRevisions` puts the largest last) -/
+theorem nextRevision_above_all (l : List Rev) : ∀ r ∈ sortRevs l, r.number < nextRevision (sortRevs l) :=
+  nextRevision_gt (sortRevs_sorted l)
+
+/-- (4) for a whole sync: reverting and succeeding leaves, under the reported name, a stored revision that records the
+    template and whose number is ≥ every listed number; it is a listed revision itself, or a listed one renumbered to
+    `nextRevision`; every other stored
+    revision is as adoption left it -/
+theorem sync_revert_renumbered_above_all (h : Hashing) (i : SyncIn) (plan : List Fault)
+    (hrun : (i.paused || !i.selectorOk) = false) (hok : (syncF h i plan).outcome = .ok) (r0 : Rev)
+    (hr : r0 ∈ syncListing plan i)
+    (heq : equalRev r0 (freshOf h i.template (i.collisionCount.getD 0) (syncListing plan i)) = true) :
+    ∃ u ∈ (syncF h i plan).store, u.name = (syncF h i plan).upd ∧ u.data = i.template ∧
+      (∀ r ∈ syncListing plan i, r.number ≤ u.number) ∧
+      (u ∈ syncListing plan i ∨
+        (u.number = nextRevision (syncListing plan i) ∧ ∃ e ∈ syncListing plan i, e.name = u.name ∧ e.data = i.template)) ∧
+      (∀ q ∈ (syncF h i plan).store, q.name ≠ (syncF h i plan).upd → q ∈ adoptedStore plan i) :=
+  sync_revert_number h i plan hrun hok hr heq
+
+/-! ## (5) a name collision never overwrites -/
+
+/-- **(5)** `createRevLoopF` changes the store only by inserting one revision under a name that was absent (then it
+    returns exactly that revision); a returned revision is stored, records the wanted data and carries the name derived at
+    the returned collision count, which is not below the initial one -/
+theorem create_loop_only_inserts_absent (h : Hashing) (plan : List Fault) (fresh : Rev) (fuel : Nat) (cc : Int) (s : RevSt) :
+    ((createRevLoopF h plan fresh fuel cc s).1.store = s.store ∨
+      ∃ cc', cc ≤ cc' ∧ (createRevLoopF h plan fresh fuel cc s).2 = some (candidate h fresh cc', cc') ∧
+        (∀ x ∈ s.store, x.name ≠ h.nameOf fresh.data cc') ∧
+        (createRevLoopF h plan fresh fuel cc s).1.store = insertByName (candidate h fresh cc') s.store) ∧
+    (∀ r cc', (createRevLoopF h plan fresh fuel cc s).2 = some (r, cc') →
+        r ∈ (createRevLoopF h plan fresh fuel cc s).1.store ∧ r.data = fresh.data ∧ r.name = h.nameOf fresh.data cc' ∧
+        cc ≤ cc' ∧ (r ∈ s.store ∨ r = candidate h fresh cc')) :=
+  ⟨(createRevLoopF_spec h plan fresh fuel cc s).2.1, (createRevLoopF_spec h plan fresh fuel cc s).2.2.1⟩
+
+/-- every pre-existing revision is still there, unchanged, after the create loop -/
+theorem create_loop_keeps_existing (h : Hashing) (plan : List Fault) (fresh : Rev) (fuel : Nat) (cc : Int) (s : RevSt)
+    (x : Rev) (hx : x ∈ s.store) : x ∈ (createRevLoopF h plan fresh fuel cc s).1.store := by
+  rcases (createRevLoopF_spec h plan fresh fuel cc s).2.1 with h1 | ⟨cc', _, _, _, h1⟩
+  · rw [h1]; exact hx
+  · rw [h1]; exact mem_insertByName.mpr (Or.inr hx)
+
+/-- AlreadyExists on a name held by a revision with different data: nothing is written, the collision count increases by
+    one and the next name is probed (the log gains the failed Create and the Get) -/
+theorem collision_bumps_count (h : Hashing) (plan : List Fault) (fresh : Rev) (fuel : Nat) (cc : Int) (s : RevSt) (ex : Rev)
+    (hk : createKind h plan fresh cc s = some .alreadyExists)
+    (hg : ((afterCreate h plan fresh cc s).tr.call plan (RevCall.get (h.nameOf fresh.data cc)).key).2 = none)
+    (hf : s.store.find? (·.name == h.nameOf fresh.data cc) = some ex) (hd : ex.data ≠ fresh.data) :
+    createRevLoopF h plan fresh (fuel + 1) cc s = createRevLoopF h plan fresh fuel (cc + 1) (afterGet h plan fresh cc s) ∧
+    (afterGet h plan fresh cc s).store = s.store ∧
+    (afterGet h plan fresh cc s).tr.log =
+      s.tr.log ++ [(RevCall.create (h.nameOf fresh.data cc)).key, (RevCall.get (h.nameOf fresh.data cc)).key] :=
+  createRevLoopF_collision h plan fresh fuel cc s hk hg hf hd
+
+/-- the whole resolution: the store is left alone, or one revision gets a new number, or one revision is inserted under
+    a name that was absent (and is the one returned) -/
+theorem resolution_store (h : Hashing) (plan : List Fault) (template : String) (cc0 : Int) (revs : List Rev) (s : RevSt) :
+    (pickF h plan template cc0 revs s).1.store = s.store ∨
+    (∃ e n, (pickF h plan template cc0 revs s).1.store = s.store.map (setNumber e n)) ∨
+    (∃ cc, cc0 ≤ cc ∧ (∀ x ∈ s.store, x.name ≠ h.nameOf template cc) ∧
+       (pickF h plan template cc0 revs s).1.store = insertByName (candidate h (freshOf h template cc0 revs) cc) s.store ∧
+       (pickF h plan template cc0 revs s).2 = some (candidate h (freshOf h template cc0 revs) cc, cc)) :=
+  pickF_store h plan template cc0 revs s
+
+/-- every stored revision keeps its name, data, owner, labels, hash label and creation time through the resolution -/
+theorem resolution_preserves (h : Hashing) (plan : List Fault) (template : String) (cc0 : Int) (revs : List Rev) (s : RevSt)
+    (x : Rev) (hx : x ∈ s.store) :
+    ∃ y ∈ (pickF h plan template cc0 revs s).1.store,
+      y.name = x.name ∧ y.data = x.data ∧ y.owner = x.owner ∧ y.selMatch = x.selMatch ∧ y.marker = x.marker ∧
+      y.hashNum = x.hashNum ∧ y.ctime = x.ctime :=
+  pickF_preserves h plan template cc0 revs s hx
+
+/-- (5) for a whole sync, every outcome: each revision of the final store is a revision of the initial store under the
+    same name with the same data (creation time, hash label, marker too; the owner unchanged or now this set) — or a new
+    one under a name that was free, recording the current template. Nothing is overwritten. -/
+theorem sync_never_overwrites (h : Hashing) (i : SyncIn) (plan : List Fault) (y : Rev) (hy : y ∈ (syncF h i plan).store) :
+    (∃ x ∈ i.store, y.name = x.name ∧ y.data = x.data ∧ y.ctime = x.ctime ∧ y.hashNum = x.hashNum ∧ y.marker = x.marker ∧
+        (y.owner = x.owner ∨ y.owner = .self)) ∨
+    (y.name ∉ i.store.map (·.name) ∧ y.data = i.template ∧ y.owner = .self) :=
+  sync_store_evolved h i plan y hy
+
+/-- … in the monitor's form: with one object per name, whatever is still stored under an old name records what it
+    recorded before -/
+theorem sync_data_preserved (h : Hashing) (i : SyncIn) (plan : List Fault) (hn : (i.store.map (·.name)).Nodup)
+    (x : Rev) (hx : x ∈ i.store) (y : Rev) (hy : y ∈ (syncF h i plan).store) (hname : y.name = x.name) : y.data = x.data := by
+  rcases sync_store_evolved h i plan y hy with ⟨x', hx', h1, h2, _⟩ | ⟨h1, _⟩
+  · have : x' = x := List.inj_on_of_nodup_map hn hx' hx (h1.symm.trans hname)
+    rw [h2, this]
+  · exact absurd (hname ▸ List.mem_map_of_mem (f := (·.name)) hx) h1
+
+/-! ## (6) termination of the collision loop -/
+
+/-- **(6)** if the hash-derived name is injective in the collision count on the `|store| + 1` values from `cc0` on, the
+    fuel is never exhausted: every fuel ≥ `|store| + 1` — in particular the model's `|store| + 8`, and any larger one —
+    yields the same state, log and answer, so the unbounded loop of the Go code stops within `|store| + 1` probes.
+    Without the assumption the Go loop could spin for ever on names that all exist with other data (a hash that ignores
+    the collision count): that is why it is a hypothesis and not a theorem about every `Hashing`. -/
+theorem fuel_never_exhausted (h : Hashing) (plan : List Fault) (fresh : Rev) (cc0 : Int) (s : RevSt)
+    (hinj : ∀ a b : Nat, a ≤ s.store.length → b ≤ s.store.length →
+      h.nameOf fresh.data (cc0 + a) = h.nameOf fresh.data (cc0 + b) → a = b)
+    (fuel : Nat) (hf : s.store.length + 1 ≤ fuel) :
+    createRevLoopF h plan fresh fuel cc0 s = createRevLoopF h plan fresh (s.store.length + 1) cc0 s :=
+  createRevLoopF_fuel h plan fresh cc0 s hinj fuel hf
+
+/-- in particular the fuel the model uses is as good as any larger one -/
+theorem model_fuel_suffices (h : Hashing) (plan : List Fault) (fresh : Rev) (cc0 : Int) (s : RevSt)
+    (hinj : ∀ a b : Nat, a ≤ s.store.length → b ≤ s.store.length →
+      h.nameOf fresh.data (cc0 + a) = h.nameOf fresh.data (cc0 + b) → a = b) (extra : Nat) :
+    createRevLoopF h plan fresh (s.store.length + 8 + extra) cc0 s = createRevLoopF h plan fresh (s.store.length + 8) cc0 s := by
+  rw [createRevLoopF_fuel h plan fresh cc0 s hinj _ (by omega), createRevLoopF_fuel h plan fresh cc0 s hinj (s.store.length + 8) (by omega)]
+
+/-! ## (7) the hash-label quirk of `EqualRevision` -/
+
+/-- equal revisions record the same data, whatever their hash labels -/
+theorem equalRev_implies_same_data (a b : Rev) (h : equalRev a b = true) : a.data = b.data := equalRev_data h
+
+/-- when either hash label is not a base-10 int32 the labels are ignored: equality is equality of the data -/
+theorem equalRev_nonnumeric_label (a b : Rev) (h : a.hashNum = none ∨ b.hashNum = none) :
+    equalRev a b = true ↔ a.data = b.data :=
+  equalRev_iff_of_nonnumeric h
+
+/-- in general: same data, and the labels agree whenever both are numeric -/
+theorem equalRev_characterisation (a b : Rev) :
+    equalRev a b = true ↔ a.data = b.data ∧ ∀ x y, a.hashNum = some x → b.hashNum = some y → x = y :=
+  equalRev_iff a b
+
+/-! ## (8) the monitor on the model
+
+`Spec.C08` is the conjunction of four clauses (`SYb.C08_split`, by `rfl`): `C08stored` (after a successful reconcile the
+reported update revision is stored and records the template), `C08kept` (whatever is still stored under an old name
+records what it recorded), `C08unchanged` (newest listed revision equal ⇒ no `create:rev` entry parses out of the log),
+`C08revert` (some listed revision equal ⇒ no `create:rev` entry, and on success the update revision's number is ≥ every
+other listed revision's). The only hypothesis is that the API store holds one object per name; it is needed: the monitor
+looks revisions up by name (`find?`), and on a store with two objects of one name and different data `C08kept` is false
+for the second one even on a sync that does nothing (`#eval` on `store := [x/"1", x/"2"]`, paused: `false`). Names may
+contain ':' — an entry whose name does is parsed as "no call" by the monitor, which only makes "no Create" easier. -/
+
+/-- **C08 headline**: the monitor is true on the model for every hashing (colliding ones included), every input whose
+    store keeps one object per name, every pod list, every fault plan -/
+theorem C08_monitor_true_on_model (h : Hashing) (i : SyncIn) (plan : List Fault) (hn : (i.store.map (·.name)).Nodup) :
+    C08 h i (syncF h i plan).observe = true :=
+  C08_model h i plan hn
+
+/-- the clauses, separately -/
+theorem C08_clauses (h : Hashing) (i : SyncIn) (plan : List Fault) (hn : (i.store.map (·.name)).Nodup) :
+    C08stored i (syncF h i plan).observe = true ∧ C08kept i (syncF h i plan).observe = true ∧
+    C08unchanged h i (syncF h i plan).observe = true ∧ C08revert h i (syncF h i plan).observe = true :=
+  ⟨C08stored_model h i plan hn, C08kept_model h i plan hn, C08unchanged_model h i plan hn, C08revert_model h i plan hn⟩
+
+/-- `Spec.C08` is literally the conjunction of the four clauses -/
+theorem C08_is_its_clauses (h : Hashing) (i : SyncIn) (o : SyncObs) :
+    C08 h i o = (C08stored i o && C08kept i o && C08unchanged h i o && C08revert h i o) :=
+  C08_split h i o
+
+/-! ## the hypotheses are satisfiable: a concrete world -/
+
+def exH : Hashing := { nameOf := fun d c => s!"web-{d}-{c}", hashNumOf := fun _ _ => none }
+/-- a hashing that collides: at collision count 0 every template is named `web-a-0` -/
+def exHcoll : Hashing := { exH with nameOf := fun d c => if c == 0 then "web-a-0" else s!"web-{d}-{c}" }
+def exRev (nm : String) (n : Int) (d : String) : Rev :=
+  { name := nm, number := n, ctime := n, data := d, hashNum := none, owner := .self, selMatch := true, marker := false }
+def exStore : List Rev := [exRev "web-a-0" 1 "a", exRev "web-b-0" 2 "b", exRev "web-c-0" 3 "c", exRev "web-d-0" 4 "d"]
+def exPod (k : Nat) (rev : String) : CPod :=
+  { name := s!"web-{k}",
+    pod := { id := k, ord := k, phase := .running, ready := true, terminating := false, rev := rev, idOk := true, stOk := true },
+    owner := .self, selMatch := true, member := true }
+/-- a set at template `d` (revision 4) with two healthy pods, history limit 10 -/
+def exIn : SyncIn :=
+  { setName := "web", paused := false, selectorOk := true,
+    view := { replicas := some 2, slots := [], parallel := false, strat := .rolling, ru := some (some 0), deleting := false,
+              generation := 3, stCurrentReplicas := 2 },
+    stored := { replicas := 2, ready := 2, current := 2, updated := 2, currentRev := "web-d-0", updateRev := "web-d-0",
+                observedGen := 3 },
+    collisionCount := some 0, historyLimit := some 10, template := "d",
+    fresh := { gone := false, uidOk := true, deleting := false },
+    store := exStore, pods := [exPod 0 "web-d-0", exPod 1 "web-d-0"] }
+
+/-- unchanged template: success, no revision call at all, the update revision is the newest -/
+example : (syncF exH exIn []).outcome = .ok ∧ (syncF exH exIn []).upd = "web-d-0" ∧
+    (syncF exH exIn []).log = ["list:revs", "list:revs", "list:revs", "list:revs"] := by decide
+
+/-- revert to template `b`: revision `web-b-0` is re-used, renumbered 5 = above all others; nothing is created -/
+example : (syncF exH { exIn with template := "b" } []).outcome = .ok ∧ (syncF exH { exIn with template := "b" } []).upd = "web-b-0" ∧
+    (syncF exH { exIn with template := "b" } []).log.filter (pre "create:rev:") = [] ∧
+    (syncF exH { exIn with template := "b" } []).store.map (fun r => (r.name, r.number)) =
+      [("web-a-0", 1), ("web-b-0", 5), ("web-c-0", 3), ("web-d-0", 4)] := by decide
+
+/-- a new template under a colliding hash: the first name is taken by other data, nothing is overwritten, the collision
+    count goes to 1 and `web-e-1` is created -/
+example : (syncF exHcoll { exIn with template := "e" } []).outcome = .ok ∧
+    (syncF exHcoll { exIn with template := "e" } []).upd = "web-e-1" ∧ (syncF exHcoll { exIn with template := "e" } []).cc = some 1 ∧
+    (syncF exHcoll { exIn with template := "e" } []).log.filter (pre "create:rev:") = ["create:rev:web-a-0", "create:rev:web-e-1"] ∧
+    (syncF exHcoll { exIn with template := "e" } []).store.map (fun r => (r.name, r.data)) =
+      [("web-a-0", "a"), ("web-b-0", "b"), ("web-c-0", "c"), ("web-d-0", "d"), ("web-e-1", "e")] := by decide
+
+/-- scaling edit (replicas 2 → 5, a delete-slot, one pod fewer): hypotheses of (2) hold, and indeed the same update revision -/
+example : SameRevisionInputs exIn { exIn with view := { exIn.view with replicas := some 5, slots := [1] }, pods := [exPod 0 "web-d-0"] } :=
+  ⟨rfl, rfl, rfl, rfl, rfl⟩
+
+/-- the hypothesis of the headline holds in the example world -/
+example : (exIn.store.map (·.name)).Nodup := by decide
+
+/-- without injectivity the loop can exhaust any fuel: a hash that ignores the collision count, one stored revision of
+    that name with other data -/
+example : (createRevLoopF { nameOf := fun _ _ => "x", hashNumOf := fun _ _ => none } [] (exRev "x" 1 "new") 50 0
+    { store := [exRev "x" 1 "old"] }).2 = none := by decide
 
 end Asts.C08
